@@ -148,6 +148,69 @@ type tree struct {
 	multiKids bool
 	inspected bool
 	uses      int
+	// held: guests that stay open after a use-mc step with their first reading of args and
+	// environ; later instantiations with related configurations must not change what they see
+	held []*heldGuest
+}
+
+type heldGuest struct {
+	node      int
+	rt        wazero.Runtime
+	p         *wasiproxy.Proxy
+	args, env []string
+}
+
+// hold instantiates one more guest with the node's configuration and keeps it open.
+func (tr *tree) hold(i int) string {
+	if len(tr.held) >= 4 {
+		return ""
+	}
+	ctx := context.Background()
+	rt := wazero.NewRuntimeWithConfig(ctx, wazero.NewRuntimeConfigInterpreter())
+	p, err := wasiproxy.New(ctx, rt, tr.nodes[i].mc, 1, -1)
+	if err != nil {
+		rt.Close(ctx)
+		return fmt.Sprintf("using node %s failed: instantiate (held): %v", tr.describe(i), err)
+	}
+	h := &heldGuest{node: i, rt: rt, p: p}
+	var msg string
+	if h.args, msg = readStrings(p, ctx, "args_sizes_get", "args_get"); msg == "" {
+		h.env, msg = readStrings(p, ctx, "environ_sizes_get", "environ_get")
+	}
+	if msg != "" {
+		rt.Close(ctx)
+		return msg
+	}
+	tr.held = append(tr.held, h)
+	evid.Label("guest-held-open", 1)
+	return ""
+}
+
+// recheckHeld reads args and environ of every held guest again.
+func (tr *tree) recheckHeld() string {
+	ctx := context.Background()
+	for _, h := range tr.held {
+		args, msg := readStrings(h.p, ctx, "args_sizes_get", "args_get")
+		if msg != "" {
+			return msg
+		}
+		env, msg := readStrings(h.p, ctx, "environ_sizes_get", "environ_get")
+		if msg != "" {
+			return msg
+		}
+		if !eqStrs(args, h.args) || !eqStrs(env, h.env) {
+			return fmt.Sprintf("a guest instantiated earlier with node %s and still open read args %q environ %q at first and reads args %q environ %q after later derivations/instantiations (last step %+v)",
+				tr.describe(h.node), h.args, h.env, args, env, tr.steps[len(tr.steps)-1])
+		}
+	}
+	return ""
+}
+
+func (tr *tree) closeHeld() {
+	for _, h := range tr.held {
+		h.rt.Close(context.Background())
+	}
+	tr.held = nil
 }
 
 func newTree() *tree {
@@ -218,7 +281,14 @@ func (tr *tree) apply(s step) string {
 	how := s.Op + "(" + strings.Join(a, ",") + ")"
 	switch s.Op {
 	case "use-mc":
-		return tr.useMC(s.Node, arg(0) == "sock")
+		msg := tr.useMC(s.Node, arg(0) == "sock")
+		if msg == "" && arg(1) == "hold" && p.kind == "mc" && !p.unmodelled {
+			msg = tr.hold(s.Node)
+		}
+		if msg == "" {
+			msg = tr.recheckHeld()
+		}
+		return msg
 	case "use-rc":
 		return tr.useRC(s.Node)
 	case "use-sk":
@@ -452,7 +522,11 @@ func (tr *tree) genStep(t *rapid.T) step {
 		if rapid.IntRange(0, 5).Draw(t, "sock") == 0 {
 			a = "sock"
 		}
-		return step{"use-mc", tr.pickPref(t, "mc", func(n *node) bool { return n.unmodelled }), []string{a}}
+		h := ""
+		if rapid.IntRange(0, 2).Draw(t, "hold") == 0 {
+			h = "hold"
+		}
+		return step{"use-mc", tr.pickPref(t, "mc", func(n *node) bool { return n.unmodelled }), []string{a, h}}
 	default:
 		return step{"use-rc", tr.pick(t, "rc"), nil}
 	}
@@ -817,6 +891,7 @@ func (tr *tree) check() string {
 
 func runTree(t *rapid.T) {
 	tr := newTree()
+	defer tr.closeHeld()
 	n := rapid.IntRange(2, 30).Draw(t, "nsteps")
 	for k := 0; k < n; k++ {
 		s := tr.genStep(t)
@@ -942,6 +1017,7 @@ func TestReplay(t *testing.T) {
 		t.Fatal(err)
 	}
 	tr := newTree()
+	defer tr.closeHeld()
 	for _, s := range c.Steps {
 		msg := tr.apply(s)
 		if msg == "" {
